@@ -345,12 +345,13 @@ structure ZDecContract {τ : Type} (L : ZLib τ) (Dec : Bytes → Option Bytes) 
     IsPre inp (w ++ tail) → 0 < room → (u ≠ [] ∨ inp ≠ []) → (L.call s inp room fl).consumed = w.length →
     (L.call s inp room fl).out ≠ [] ∨ (L.call s inp room fl).hint = 0
 
-/-- `ZSTD_decompressStream` on input that has gone wrong: an error code, or it keeps to its buffers, does something, and
-never claims that a frame is complete (`hint ≠ 0`) -/
+/-- `ZSTD_decompressStream` on input that has gone wrong, called with input or at the end of the input (`zstd.c` makes no
+other calls): an error code, or it keeps to its buffers, does something, and never claims that a frame is complete (`hint ≠ 0`) -/
 structure ZDoom {τ : Type} {L : ZLib τ} {Dec : Bytes → Option Bytes} (hZ : ZDecContract L Dec) where
   B : τ → Bytes → Nat → Prop
   budget : Nat → Nat
   call : ∀ {s rest j}, B s rest j → ∀ (inp : Bytes) (room : Nat) (fl : Flush), IsPre inp rest → 0 < room →
+    (inp ≠ [] ∨ rest = []) →
     ∀ r, r = L.call s inp room fl →
     r.isError = true ∨
     (r.consumed ≤ inp.length ∧ r.out.length ≤ room ∧ r.hint ≠ 0 ∧
